@@ -16,7 +16,13 @@ Events (first element = tag):
                                                            vmode: ('imm', verdict) | ('def',)   [validator of i]
     ('await',   i, t, tie)
     ('data',    d, name, t, tie)
-    ('nack',    name, dig, reason, t, tie)
+    ('nack',    name, dig, reason, t, tie)                 reason: int r          NackReason element, shortest encoding
+                                                           | ('absent',)    Nack header WITHOUT a NackReason element
+                                                                            (NDNLPv2: reason None = 0)
+                                                           | ('wide', r, w) NackReason element with a w-byte value
+                                                                            (w in 1,2,4,8, not the shortest)
+    ('setdefault', harness_validator, t)                   legacy front-end: app.int_validator := a harness validator
+                                                           (True) / the library default sha256_digest_checker (False)
     ('vdone',   i, verdict, t, tie)
     ('cancel',  i, t, tie)
     ('shutdown', t, tie)
@@ -43,6 +49,36 @@ def v1_truth(k):
 def comp(k):
     from ndn.encoding import Component
     return Component.from_str(chr(97 + k) if k < 26 else 'c%d' % k)
+
+
+# ---- Nack reasons: every value / encoding a forwarder may legally send -------------------------------------
+def nack_reason_value(reason):
+    """The reason the application must see (what the model / specification is given)."""
+    if isinstance(reason, (tuple, list)):
+        return 0 if reason[0] == 'absent' else reason[1]
+    return reason
+
+
+def nack_wire(interest_wire, reason):
+    """LpPacket{Nack{[NackReason]}, Fragment{interest}}; the plain-int form goes through the library's encoder,
+    the other forms are encoded here (LpPacket 0x64, Nack 0x0320, NackReason 0x0321, Fragment 0x50)."""
+    from harness.lib import gen as G
+    if not isinstance(reason, (tuple, list)):
+        from ndn.encoding import make_network_nack
+        return bytes(make_network_nack(interest_wire, reason))
+    if reason[0] == 'absent':
+        hdr = b''
+    else:
+        hdr = G.tlv(0x0321, int(reason[1]).to_bytes(reason[2], 'big'))
+    return G.tlv(0x64, G.tlv(0x0320, hdr) + G.tlv(0x50, bytes(interest_wire)))
+
+
+# value boundaries of the NackReason number (0 = None, the three reasons forwarders send, widths 1/2/4/8)
+NACK_VALUES = [0, 1, 50, 100, 150, 255, 256, 65535, 65536, (1 << 32) - 1, 1 << 32, (1 << 64) - 1]
+NACK_FORMS = ([('absent',)] + NACK_VALUES
+              + [('wide', 0, 2), ('wide', 0, 8), ('wide', 50, 2), ('wide', 150, 4), ('wide', 255, 8), ('wide', 65535, 4)])
+# what the random histories draw from: the falsy / boundary reasons as often as the common ones
+NACK_POOL = [50, 100, 150, 0, ('absent',), 0, ('absent',), 1, 255, 256, ('wide', 0, 2), ('wide', 150, 4), 1 << 32]
 
 
 def data_wire(d, name):
@@ -123,6 +159,10 @@ class World:
         self.errors = []           # exceptions escaping _receive / express / harness-visible calls
         self.handler_calls = []    # (handler id, interest id)
         self.ivcalls = []          # (interest id) validator invocations for incoming Interests
+        self.ivwho = []            # (interest id, which validator): ('route', handler id) | ('default', generation)
+        self.n_default = 0         # harness validators installed as app.int_validator so far (legacy front-end)
+        self.lib_int_validator = getattr(self.app, 'int_validator', None)     # the library's default, to restore it
+        self.shut_seen = False
         self.validated_before = {}
         self.int_wire2k = {}
         self.cur_k = None
@@ -284,10 +324,9 @@ class World:
         return fn
 
     def ev_nack(self, name, dig, reason):
-        from ndn.encoding import make_interest, InterestParam, make_network_nack
+        from ndn.encoding import make_interest, InterestParam
         iw = make_interest(self.full_name(name, dig), InterestParam(nonce=7, lifetime=4000))
-        wire = bytes(make_network_nack(iw, reason))
-        return self.recv(100, wire)
+        return self.recv(100, nack_wire(iw, reason))
 
     def ev_vdone(self, i, v):
         def fn():
@@ -306,6 +345,10 @@ class World:
     def ev_shutdown(self):
         def fn():
             self.app.shutdown()
+            if self.fe == 'v1' and not self.shut_seen:
+                # handler ids are positions in the route table; the legacy clean-up empties that table
+                self.n_attach = 0
+            self.shut_seen = True
         return fn
 
     # -- incoming Interests (C05 second half) -------------------------------------------------
@@ -322,6 +365,7 @@ class World:
 
                 async def validator(name, sig, context):
                     world.ivcalls.append(world.cur_k)
+                    world.ivwho.append((world.cur_k, ('route', h)))
                     return world.verdict_value(world.cur_verdict)
                 self.app.attach_handler(pfx, handler, validator if has_validator else None)
             else:
@@ -331,8 +375,29 @@ class World:
 
                 async def validator(name, sig):
                     world.ivcalls.append(world.cur_k)
+                    world.ivwho.append((world.cur_k, ('route', h)))
                     return world.verdict_value(world.cur_verdict)
                 self.app.set_interest_filter(pfx, handler, validator if has_validator else None)
+        return fn
+
+    def ev_setdefault(self, own):
+        """Legacy front-end: replace the application-wide Interest validator (documented attribute app.int_validator)
+        by a fresh harness validator (own) or put the library's default back.  appv2 has no such attribute: nothing."""
+        def fn():
+            if self.fe != 'v1':
+                return
+            world = self
+            if own:
+                g = self.n_default
+                self.n_default += 1
+
+                async def validator(name, sig):
+                    world.ivcalls.append(world.cur_k)
+                    world.ivwho.append((world.cur_k, ('default', g)))
+                    return world.verdict_value(world.cur_verdict)
+                self.app.int_validator = validator
+            else:
+                self.app.int_validator = self.lib_int_validator
         return fn
 
     def interest_wire(self, name, has_params, sig, digest_ok):
@@ -391,6 +456,10 @@ class World:
             self.position(t, 0)
             self.apply(self.ev_interest(k, name, has_params, sig, digest_ok, verdict), 0)
             return
+        if tag == 'setdefault':
+            self.position(ev[2], 0)
+            self.apply(self.ev_setdefault(ev[1]), 0)
+            return
         t, tie = ev[-2], ev[-1]
         if tag == 'express':
             fn = self.ev_express(*ev[1:7])
@@ -448,6 +517,7 @@ class World:
             'vcalls': list(self.vcalls),
             'handler_calls': list(self.handler_calls),
             'ivcalls': list(self.ivcalls),
+            'ivwho': list(self.ivwho),
             'validated_before': dict(self.validated_before),
         }
         return obs
@@ -472,7 +542,22 @@ class World:
             asyncio.set_event_loop(None)
 
 
+_GC_CASES = [0]
+
+
+def _gc_housekeeping():
+    """Every case ends with two gc.collect() (asyncio reports a never-retrieved exception when the future is
+    collected).  A full collection scans every tracked object, most of which are long-lived (modules, evidence
+    counters); every 64 cases those are moved to the permanent generation (after a full collection, so no garbage is
+    frozen) and the per-case collections only look at what the cases allocated since."""
+    if _GC_CASES[0] % 64 == 0:
+        gc.collect()
+        gc.freeze()
+    _GC_CASES[0] += 1
+
+
 def run_impl(frontend, history):
+    _gc_housekeeping()
     dig_of = {}
     for ev in history:
         if ev[0] == 'data':
@@ -516,7 +601,7 @@ def m_event(fe, ev):
     if tag == 'data':
         return [ev[4], [2, ev[1], list(ev[2]), ev[1], ev[3]]]
     if tag == 'nack':
-        return [ev[5], [3, list(ev[1]), m_dig(ev[2]), ev[3], ev[4]]]
+        return [ev[5], [3, list(ev[1]), m_dig(ev[2]), nack_reason_value(ev[3]), ev[4]]]
     if tag == 'vdone':
         return [ev[4], [4, ev[1], m_verdict(fe, ev[2]), ev[3]]]
     if tag == 'cancel':
@@ -530,6 +615,8 @@ def m_event(fe, ev):
     if tag == 'interest':
         _, k, name, hp, sig, dok, verdict, t = ev
         return [0, [9, k, list(name), hp, sig, dok, m_verdict(fe, verdict), t]]
+    if tag == 'setdefault':
+        return [0, [10, ev[1], ev[2]]]
     raise ValueError(tag)
 
 
@@ -596,6 +683,7 @@ def canon_impl(fe, obs):
         'vcalls': sorted((i, -1 if d is None else d) for i, d in obs['vcalls']),
         'handler_calls': [tuple(x) for x in obs['handler_calls']],
         'ivcalls': list(obs['ivcalls']),
+        'ivwho': list(obs.get('ivwho', [])),
         'validated_before': obs.get('validated_before', {}),
     }
 
@@ -625,7 +713,7 @@ def compare(ctx, site, fe, h, m, r):
     elif m['handler_calls'] != r['handler_calls']:
         bad('handler invocations', m['handler_calls'], r['handler_calls'])
     elif m['ivcalls'] != r['ivcalls']:
-        bad('route validator invocations', m['ivcalls'], r['ivcalls'])
+        bad('invocations of application-supplied Interest validators', m['ivcalls'], r['ivcalls'])
     return ok
 
 
@@ -642,7 +730,8 @@ def is_wf(h):
     while k < len(h):
         ev = h[k]
         tag = ev[0]
-        t = ev[1] if tag == 'advance' else (ev[3] if tag == 'attach' else (ev[7] if tag == 'interest' else ev[-2]))
+        t = (ev[1] if tag == 'advance' else ev[3] if tag == 'attach' else ev[7] if tag == 'interest'
+             else ev[2] if tag == 'setdefault' else ev[-2])
         if t < t_last:
             return False
         t_last = t
@@ -676,6 +765,11 @@ def oracle(ctx, fe, h, r, prop):
                       f'exception escaped _receive: {r["errors"]}', case)
     if r['loop_errors']:
         ctx.violation(site, 'loop-exception-handler', f'loop exception handler called: {r["loop_errors"][:2]}', case)
+    if h and r['handler_calls'] and not any(e[0] == 'interest' for e in h):
+        # the only packets of this history are Data and Nacks (a Nack carries the application's OWN Interest)
+        ctx.violation(site + '._receive', 'nack-or-data-dispatched-as-incoming-interest',
+                      f'an Interest handler was called {r["handler_calls"]} although no Interest arrived '
+                      f'(the Fragment of a Nack is not an incoming Interest)', case)
     ids = expressed_ids(h)
     if not ids:
         return
@@ -779,6 +873,20 @@ def targeted(fe):
         add('data-during-validation', ex(0, A, 0, vm=('def',), fe=fe) + [('data', 0, A, 20, 0), ('data', 1, A, 30, tie), ('nack', A, None, 50, 40, 0),
                                                                           ('vdone', 0, P, 50, 0)])
         add('cancel-during-validation', ex(0, A, 0, vm=('def',), fe=fe) + [('data', 0, A, 20, 0), ('cancel', 0, 30, tie), ('vdone', 0, P, 50, 0)])
+    # every Nack reason value / encoding (incl. the falsy ones: NackReason 0 and a Nack header without NackReason):
+    # the nacked Interest ends with exactly that reason, at once; its neighbours (same name with a digest, a longer
+    # name) stay pending; an application that also serves the prefix never sees its own nacked Interest as incoming
+    for k, form in enumerate(NACK_FORMS):
+        tie = k % 3
+        add('nack-reason', ex(0, A, 0, fe=fe) + ex(1, AB, 0, life=300, fe=fe) + [('nack', A, None, form, 40, 0), ('advance', 500)])
+        add('nack-reason-tie', ex(0, A, 0, fe=fe) + ex(1, A, 0, life=200, fe=fe) + [('nack', A, None, form, 100, tie), ('advance', 500)])
+        add('nack-reason-digest', ex(0, A, 0, dig=0, fe=fe) + ex(1, A, 0, fe=fe) + [('nack', A, 0, form, 20, tie), ('data', 1, A, 30, 0), ('advance', 500)])
+        add('nack-reason-served-prefix', [('attach', A, False, 0), ('attach', AB, True, 0)] + ex(0, AB, 5, fe=fe) + ex(1, ABC, 5, cbp=True, fe=fe)
+            + [('nack', AB, None, form, 40, tie), ('nack', ABC, None, form, 50, 0), ('nack', X, None, form, 60, 0), ('advance', 500)])
+        add('nack-reason-twice', ex(0, A, 0, fe=fe) + [('nack', A, None, form, 20, 0), ('nack', A, None, 150, 30, 0)] + ex(1, A, 40, fe=fe)
+            + [('nack', A, None, NACK_FORMS[(k + 1) % len(NACK_FORMS)], 60, tie)])
+        add('nack-reason-validating', ex(0, A, 0, vm=('def',), fe=fe) + [('data', 0, A, 20, 0)] + ex(1, A, 25, life=300, fe=fe)
+            + [('nack', A, None, form, 30, tie), ('vdone', 0, P, 50, 0), ('advance', 500)])
     # every verdict
     for v in verdicts(fe):
         add('verdict-imm', ex(0, A, 0, vm=('imm', v), fe=fe) + [('data', 0, A, 20, 0)])
@@ -880,7 +988,7 @@ def rand_history(rng, fe, n_int=None, n_ev=None, wf=True):
             h.append(('data', d, name, t, tie))
         elif a == 'nack':
             h.append(('nack', rng.choice(int_names) if int_names and rng.random() < 0.6 else rng.choice(NAMES),
-                      rng.choice(dig_pool), rng.choice((50, 100, 150)), t, tie))
+                      rng.choice(dig_pool), rng.choice(NACK_POOL), t, tie))
         elif a == 'vdone':
             h.append(('vdone', rng.choice(deferred), rng.choice(verdicts(fe)) if rng.random() < 0.5 else PASS[fe], t, tie))
         elif a == 'cancel':
@@ -929,7 +1037,7 @@ def check_history(ctx, fe, h, tag, prop, with_oracle=True):
                       f'internal error on a history outside the theorems\' quantifier: {r["errors"]} {r["loop_errors"]}',
                       {'frontend': fe, 'history': h})
     n_int = len(expressed_ids(h))
-    ties = sum(1 for e in h if e[0] not in ('advance', 'attach', 'interest') and e[-1] != 0)
+    ties = sum(1 for e in h if e[0] not in ('advance', 'attach', 'interest', 'setdefault') and e[-1] != 0)
     ctx.case((fe, tuple(map(repr, h))), n_int > 0 and len(h) > 2,
              {'frontend': fe, 'tag': tag, 'history': h, 'model': m['completion'], 'impl': r['completion']},
              f'{fe}.{tag}')
